@@ -17,7 +17,7 @@ def main():
     spec = importlib.import_module('checks.' + pid.lower())
     ov = '/tmp/dbg-ov-%s' % pid
     extra = spec.generate('quick') if hasattr(spec, 'generate') else {}
-    pk = run.build_overlay(ov, spec.HARNESS_FILES, extra, getattr(spec, 'CLOCK_PKGS', ()))
+    pk = run.build_overlay(ov, spec.HARNESS_FILES, extra, getattr(spec, 'CLOCK_PKGS', ()), getattr(spec, 'KERNEL_PKGS', ()))
     M = 'github.com/bluenviron/gomavlib/v3'
     inits = [x for x in getattr(spec, 'INITS', '').split(',') if x]
     for p in pk:
